@@ -3,7 +3,9 @@
 
 Applies each catalogue entry (one-hunk textual edit) to a scratch copy of /repo, runs the named checks against the
 copy and asserts: mutants -> exit 1 with a report that mentions the expected rule; benign refactors -> exit 0.
-Usage: selftest/run.py [-j N] [id-substring ...]
+Usage: selftest/run.py [-j N] [--thorough] [--benign] [id-substring ...]
+  --thorough  run the checks with --tier thorough (adds the release configuration): benign entries must stay silent there too
+  --benign    only the behaviour-preserving entries
 """
 import json, os, subprocess, sys, tempfile, shutil, concurrent.futures as cf
 
@@ -11,6 +13,9 @@ V = os.path.dirname(os.path.dirname(os.path.abspath(__file__)))
 REPO = '/repo'
 sys.path.insert(0, os.path.join(V, 'selftest'))
 from catalogue import CATALOGUE   # noqa
+
+
+TIER_THOROUGH = False
 
 
 def run_one(m):
@@ -30,7 +35,7 @@ def run_one(m):
         verdict = 'OK'
         notes = []
         for pid in m['checks']:
-            r = subprocess.run([os.path.join(V, 'check'), pid], env=env, stdout=subprocess.PIPE, stderr=subprocess.STDOUT, text=True)
+            r = subprocess.run([os.path.join(V, 'check'), pid] + (['--tier', 'thorough'] if TIER_THOROUGH else []), env=env, stdout=subprocess.PIPE, stderr=subprocess.STDOUT, text=True)
             res[pid] = (r.returncode, r.stdout)
             if r.returncode == 2:
                 verdict = 'ERROR'
@@ -63,8 +68,11 @@ def main():
         jobs = int(args[i + 1])
         del args[i:i + 2]
     verbose = '-v' in args
-    args = [a for a in args if a != '-v']
-    sel = [m for m in CATALOGUE if not args or any(a in m['id'] for a in args)]
+    global TIER_THOROUGH
+    TIER_THOROUGH = '--thorough' in args
+    only_benign = '--benign' in args
+    args = [a for a in args if a not in ('-v', '--thorough', '--benign')]
+    sel = [m for m in CATALOGUE if (not args or any(a in m['id'] for a in args)) and (not only_benign or m['kind'] == 'benign')]
     bad = 0
     with cf.ThreadPoolExecutor(jobs) as ex:
         for m, verdict, note, res in ex.map(run_one, sel):
